@@ -269,7 +269,8 @@ structure ColCaps (rc : RenderCfg) : Prop where
   afab : rc.ti.setFgBg = [] ∨ ∀ {rw : Int → Int} {t : Term}, Good rw t → ∀ f b, f < Render.nColors rc → b < Render.nColors rc →
     t.feed (tp rc (parm rc.ti.setFgBg (ints [((f : Nat) : Int), ((b : Nat) : Int)]))) =
       withPen t { t.pen with fg := .idx f, bg := .idx b }
-  reset : rc.ti.resetFgBg = resetStd
+  reset : ∀ {rw : Int → Int} {t : Term}, Good rw t →
+    t.feed (tp rc rc.ti.resetFgBg) = withPen t { t.pen with fg := (opSel rc).1, bg := (opSel rc).2 }
   fRGB : rc.ti.setFgRGB = [] ∨ rc.ti.setFgRGB = setfRGB
   bRGB : rc.ti.setBgRGB = [] ∨ rc.ti.setBgRGB = setbRGB
   fbRGB : rc.ti.setFgBgRGB = [] ∨ rc.ti.setFgBgRGB = setfbRGB
@@ -418,8 +419,20 @@ theorem palKind_cases {ti : Terminfo} (h : (palKind ti).isSome = true) :
 /-- **the colour strings of the class**: a colour terminal of one of the five palette families, or a monochrome one -/
 theorem xl_colcaps {rc : RenderCfg} (hx : XtermLike rc.ti = true) : ColCaps rc ∨ Mono rc := by
   have F := tiFacts hx
-  rcases F.col with ⟨hk, hop⟩ | hm
+  rcases F.col with ⟨hk, hop'⟩ | hm
   · left
+    have hop : ∀ {rw : Int → Int} {t : Term}, Good rw t →
+        t.feed (tp rc rc.ti.resetFgBg) = withPen t { t.pen with fg := (opSel rc).1, bg := (opSel rc).2 } := by
+      intro rw t g
+      simp only [opForms, List.mem_cons, List.not_mem_nil, or_false] at hop'
+      rcases hop' with h | h | h
+      · have e : opSel rc = (.default, .default) := by
+          unfold opSel; rw [h, if_neg (by decide), if_neg (by decide)]
+        rw [e, h, tp_clean rc _ (by decide)]; exact fgbgReset_effect g
+      · have e : opSel rc = (.idx 2, .idx 0) := by unfold opSel; rw [h, if_pos rfl]
+        rw [e, h, tp_clean rc _ (by decide)]; exact opAix_effect g
+      · have e : opSel rc = (.idx 7, .idx 0) := by unfold opSel; rw [h, if_neg (by decide), if_pos rfl]
+        rw [e, h, tp_clean rc _ (by decide)]; exact opPc_effect g
     have l := (show Render.nColors rc ≤ 256 by unfold Render.nColors; split <;> omega)
     have cleanF : ∀ n, tp rc (csiSeq (idxBody 30 90 38 n) 0x6d) = csiSeq (idxBody 30 90 38 n) 0x6d :=
       fun n => tp_clean rc _ (body_idx 30 90 38 n).clean
@@ -571,17 +584,22 @@ after `sgr0`), the colours become what the two colour values denote on this term
 the terminal has, and the FITTED palette colour (`rc.fit`) for everything else -/
 theorem col_sendFgBg_effect {rw} {rc : RenderCfg} (C : ColCaps rc) (hfit : FitOk0 rc) {t : Term} (g : Good rw t)
     (h1 : t.pen.fg = .default) (h2 : t.pen.bg = .default) (fg bg attr : Nat) :
-    t.feed (Render.sendFgBg rc fg bg attr).1 = withPen t { t.pen with fg := colSel rc fg, bg := colSel rc bg } ∧
+    t.feed (Render.sendFgBg rc fg bg attr).1 = withPen t { t.pen with fg := fgSel rc fg bg, bg := bgSel rc fg bg } ∧
       (Render.sendFgBg rc fg bg attr).2 = attr := by
   rw [sendFgBg_unfold rc C.colors hfit]
   refine ⟨?_, rfl⟩
   simp only []
   rw [← feed_append]
-  have e0 : t.feed (if fg = colorReset ∨ bg = colorReset then tp rc rc.ti.resetFgBg else []) = t := by
-    split
-    · rw [C.reset, tp_clean rc _ (by decide), fgbgReset_effect g, pen_eta_fgbg _ h1 h2]; rfl
+  -- `op`, when either colour is ColorReset
+  generalize hp0 : (if fg = colorReset ∨ bg = colorReset then ({ t.pen with fg := (opSel rc).1, bg := (opSel rc).2 } : Pen) else t.pen) = p0
+  have e0 : t.feed (if fg = colorReset ∨ bg = colorReset then tp rc rc.ti.resetFgBg else []) = withPen t p0 := by
+    rw [← hp0]; split
+    · exact C.reset g
     · rfl
   rw [e0]
+  have g0 := good_withPen g p0
+  have hover : ∀ a b : ColorSel, ({ p0 with fg := a, bg := b } : Pen) = { t.pen with fg := a, bg := b } := by
+    intro a b; rw [← hp0]; split <;> rfl
   by_cases hA : rc.truecolor = true ∧ (!rc.ti.setFgBgRGB.isEmpty) = true ∧ Color.isRGB fg = true ∧ Color.isRGB bg = true
   · rw [if_pos hA]
     obtain ⟨r, gg, b, hr, hg, hb, e1, e2⟩ := rgb_forms fg hA.2.2.1
@@ -598,19 +616,25 @@ theorem col_sendFgBg_effect {rw} {rc : RenderCfg} (C : ColCaps rc) (hfit : FitOk
     have hB : dirF rc bg := ⟨hA.1, hA.2.2.2, hF.2.2⟩
     have c1 : colSel rc fg = .rgb r gg b := by unfold colSel; rw [if_pos ((hasRGB_iff_dirF rc fg).2 hF), e2]
     have c2 : colSel rc bg = .rgb r' g' b' := by unfold colSel; rw [if_pos ((hasRGB_iff_dirF rc bg).2 hB), e2']
+    have f1 : fgSel rc fg bg = .rgb r gg b := by unfold fgSel; rw [c1, if_neg (by simp)]
+    have f2 : bgSel rc fg bg = .rgb r' g' b' := by unfold bgSel; rw [c2, if_neg (by simp)]
     rw [hne, e1, e1']
-    show t.feed (tp rc (parm setfbRGB (ints [(r : Int), (gg : Int), (b : Int), (r' : Int), (g' : Int), (b' : Int)]))) = _
+    show (withPen t p0).feed (tp rc (parm setfbRGB (ints [(r : Int), (gg : Int), (b : Int), (r' : Int), (g' : Int), (b' : Int)]))) = _
     rw [parm_setfbRGB, tp_clean rc _ ((body_ext2 38 r gg b).append (body_ext2 48 r' g' b')).clean,
-      fbRGB_effect g r gg b r' g' b' hr hg hb hr' hg' hb', c1, c2]
-  · rw [if_neg hA, ← feed_append, fPiece C g, ← feed_append, bPiece C (good_withPen g _),
-      palPiece C (good_withPen (good_withPen g _) _) _ _ _ _ (fitColor_idx hfit fg) (fitColor_idx hfit bg)]
+      fbRGB_effect g0 r gg b r' g' b' hr hg hb hr' hg' hb', f1, f2]
+    show withPen t { p0 with fg := _, bg := _ } = _
+    rw [hover]
+  · rw [if_neg hA, ← feed_append, fPiece C g0, ← feed_append, bPiece C (good_withPen g0 _),
+      palPiece C (good_withPen (good_withPen g0 _) _) _ _ _ _ (fitColor_idx hfit fg) (fitColor_idx hfit bg)]
     have hb' := dirB_iff_dirF C bg
     have cf := hasRGB_iff_dirF rc fg
     have cb := hasRGB_iff_dirF rc bg
+    have r1 : ∀ c, Color.isRGB c = true → rgbSel c ≠ .default := by intro c _; simp [rgbSel]
+    subst hp0
+    by_cases hR : fg = colorReset ∨ bg = colorReset <;>
     by_cases dF : dirF rc fg <;> by_cases dB : dirF rc bg <;> by_cases vF : Color.valid fg = true <;>
       by_cases vB : Color.valid bg = true <;>
-      simp [withPen, colSel, dF, dB, hb'.2, hb', cf.2, cb.2, cf, cb, vF, vB, h1, h2, C.colors]
-
+      simp [withPen, fgSel, bgSel, colSel, hR, dF, dB, hb'.2, hb', cf.2, cb.2, cf, cb, vF, vB, h1, h2, C.colors, rgbSel]
 
 /-! ### monochrome terminals, and both kinds together -/
 
@@ -674,6 +698,11 @@ theorem mono_sendFgBg {rc : RenderCfg} (M : Mono rc) (fg bg attr : Nat) :
 theorem colSel_mono {rc : RenderCfg} (M : Mono rc) (c : Nat) : colSel rc c = .default := by
   simp [colSel, hasRGB, M.fRGB, M.colors]
 
+theorem fgSel_mono {rc : RenderCfg} (M : Mono rc) (f b : Nat) : fgSel rc f b = .default := by
+  simp [fgSel, colSel_mono M, opSel, M.reset, opAix, opPc]
+theorem bgSel_mono {rc : RenderCfg} (M : Mono rc) (f b : Nat) : bgSel rc f b = .default := by
+  simp [bgSel, colSel_mono M, opSel, M.reset, opAix, opPc]
+
 /-- **sendFgBg on the emulator, every terminal of the class**: with default colours in the pen (the style block and clearScreen
 call it right after `sgr0`), the colours become what the two colour values denote on this terminal (`colSel`): default for
 `ColorDefault`/`ColorReset`/invalid and on monochrome terminals, the exact RGB value in direct-colour mode, the palette index for
@@ -681,13 +710,13 @@ palette colours the terminal has, and the FITTED palette colour (`rc.fit`) for e
 `effAttr` -/
 theorem xl_sendFgBg_effect {rw} {rc : RenderCfg} (hx : XtermLike rc.ti = true) (hfit : FitOk rc) {t : Term} (g : Good rw t)
     (h1 : t.pen.fg = .default) (h2 : t.pen.bg = .default) (fg bg attr : Nat) :
-    t.feed (Render.sendFgBg rc fg bg attr).1 = withPen t { t.pen with fg := colSel rc fg, bg := colSel rc bg } ∧
+    t.feed (Render.sendFgBg rc fg bg attr).1 = withPen t { t.pen with fg := fgSel rc fg bg, bg := bgSel rc fg bg } ∧
       (Render.sendFgBg rc fg bg attr).2 = effAttr rc fg attr := by
   rcases xl_colcaps hx with C | M
   · have := col_sendFgBg_effect C (hfit C.ncol) g h1 h2 fg bg attr
     refine ⟨this.1, ?_⟩
     rw [this.2]; simp [effAttr, monoFlip, C.colors]
-  · rw [mono_sendFgBg M, colSel_mono M, colSel_mono M]
+  · rw [mono_sendFgBg M, fgSel_mono M, bgSel_mono M]
     refine ⟨?_, rfl⟩
     rw [pen_eta_fgbg _ h1 h2]; rfl
 
@@ -866,7 +895,7 @@ theorem xl_setPen_effect {rw} {rc : RenderCfg} (hx : XtermLike rc.ti = true) (hd
   simp only [bit_effAttr_bold, bit_effAttr_rev, bit_effAttr_blink, bit_effAttr_dim, bit_effAttr_italic, bit_effAttr_strike]
   simp only [← feed_append]
   rw [xl_attrOff_effect hx g, hs1]
-  generalize hp0 : ({ (reset t).pen with fg := colSel rc s.fg, bg := colSel rc s.bg } : Pen) = p0
+  generalize hp0 : ({ (reset t).pen with fg := fgSel rc s.fg s.bg, bg := bgSel rc s.fg s.bg } : Pen) = p0
   have g1 := good_withPen g0 p0
   obtain ⟨p1, e1, hp1⟩ := opt_piece' (rc := rc) g1 (bit s.attrs Render.attrBold) rc.ti.bold (sgr1 1) F.bold (by decide)
     (fun p => { p with bold := true }) bold_effect
@@ -1081,10 +1110,10 @@ theorem xl_clear_effect {rw} {rc : RenderCfg} (hx : XtermLike rc.ti = true) (hd 
     {t : Term} (g : Good rw t) (q : Quiet rc t) (s : Style) :
     ∃ G : Grid, t.feed (Render.render rc (.clear s)) =
         { t with grid := G, cx := 0, cy := 0, pendingWrap := false, cursorKnown := true, penKnown := true, linkKnown := true,
-                 pen := { fg := colSel rc s.fg, bg := colSel rc s.bg } } ∧
+                 pen := { fg := fgSel rc s.fg s.bg, bg := bgSel rc s.fg s.bg } } ∧
       G.w = t.grid.w ∧ G.h = t.grid.h ∧
       ∀ x y, x < t.grid.w → y < t.grid.h →
-        G.get x y = { runes := [], pen := { bg := colSel rc s.bg }, garbage := false, stamp := t.blocks } := by
+        G.get x y = { runes := [], pen := { bg := bgSel rc s.fg s.bg }, garbage := false, stamp := t.blocks } := by
   have F := tiFacts hx
   have D := dFacts hx hd
   have eu : tp rc rc.d.exitUrl = (if (!rc.d.enterUrl.isEmpty) = true then tp rc rc.d.exitUrl else []) := by
@@ -1099,7 +1128,7 @@ theorem xl_clear_effect {rw} {rc : RenderCfg} (hx : XtermLike rc.ti = true) (hd 
     ⟨g.st, g.utf8, g.font, g.g0, g.so, g.irm, g.mal, g.rw⟩
   rw [(xl_sendFgBg_effect hx hfit g1 rfl rfl s.fg s.bg 0).1]
   have g2 := good_withPen g1 { ({ reset t with linkKnown := true, pen := { (reset t).pen with link := none } } : Term).pen with
-    fg := colSel rc s.fg, bg := colSel rc s.bg }
+    fg := fgSel rc s.fg s.bg, bg := bgSel rc s.fg s.bg }
   obtain ⟨G, e, hw, hh, hc⟩ := clearForm_effect g2 _ F.clear
   refine ⟨G, ?_, hw, hh, ?_⟩
   · rw [e]; rfl
